@@ -272,6 +272,7 @@ def run(model, col, tier):
     pipe.check_validator(col, "R11.4", "ValidateFlowStatements")
     pipe.makepass_process(col, "R11.4")
     pipe.check_gating(col, "R11.4")
+    pipe.check_pass_freshness(col, "R11.4", ["ValidateFlowStatements"])
     # ---- R11.5 ---------------------------------------------------------------
     from ..report import Collector
 
